@@ -217,7 +217,9 @@ MIRROR = M.Transform(lambda x, y, z: (-x, y, -z), lambda fx, fy, mz, p: (-fx, fy
 def same_system(oA, oB, reversed_ids, what):
     """the system of equations of the structure put elsewhere, or with some bars drawn from their other end, is the same system with
     its equations renumbered: every stiffness term and every load entry is found again at the numbers of the same slice nodes (global
-    axes: no sign changes).  Needs no solved run."""
+    axes: no sign changes).  Needs no solved run.  (Tolerances: the direction of a bar whose coordinates are a million away from the
+    origin comes out of a cancellation - 2e-10 of the largest term of its matrix, of its loads; what this comparison is after is
+    a term in the wrong place or of the wrong finite element.)"""
     if not (oA.get("KEntries") and oB.get("KEntries") and oA.get("Pre") and oB.get("Pre")) or oA.get("SysPanic") or oB.get("SysPanic"):
         return []
     pa, pb = oA["Pre"][-1], oB["Pre"][-1]
@@ -246,13 +248,13 @@ def same_system(oA, oB, reversed_ids, what):
         if i not in perm or j not in perm:
             continue
         w = KB.get((perm[i], perm[j]), Fr(0))
-        if abs(v - w) > Fr(1, 10 ** 8) * (abs(v) + abs(w)) + Fr(1, 10 ** 12) * big:
+        if abs(v - w) > Fr(1, 10 ** 6) * (abs(v) + abs(w)) + Fr(1, 10 ** 9) * big:
             fails.append("%s: the stiffness term of equations (%d, %d) is %.9g, the same term of the other drawing (%d, %d) is %.9g" % (what, i, j, float(v), perm[i], perm[j], float(w)))
             break
     fa, fb = [C.ffloat(v) for v in oA["F"]], [C.ffloat(v) for v in oB["F"]]
     fbig = max([abs(v) for v in fa] + [Fr(0)])
     for i in range(n):
-        if i in perm and abs(fa[i] - fb[perm[i]]) > Fr(1, 10 ** 8) * (abs(fa[i]) + abs(fb[perm[i]])) + Fr(1, 10 ** 11) * fbig:
+        if i in perm and abs(fa[i] - fb[perm[i]]) > Fr(1, 10 ** 6) * (abs(fa[i]) + abs(fb[perm[i]])) + Fr(1, 10 ** 7) * fbig:
             fails.append("%s: the load entry of equation %d is %.9g, the same entry of the other drawing (%d) is %.9g" % (what, i, float(fa[i]), perm[i], float(fb[perm[i]])))
             break
     return fails
